@@ -1,0 +1,101 @@
+//go:build verif
+// +build verif
+
+package ipp
+
+// Hooks for the verification harness (build tag verif only): what the service's own decoder
+// made of an IPP message, and what its encoder makes of that again.
+
+// VerifValue is one decoded attribute: tag, name and its values rendered as strings
+// (integers and enums in decimal, booleans as true/false, a range as "low..high").
+type VerifValue struct {
+	Tag    int      `json:"vt"`
+	Name   string   `json:"name"`
+	Values []string `json:"vals"`
+}
+
+// VerifGroup is one attribute group.
+type VerifGroup struct {
+	Tag   int          `json:"tag"`
+	Attrs []VerifValue `json:"attrs"`
+}
+
+// VerifMessage is a decoded IPP message.
+type VerifMessage struct {
+	Major     int          `json:"major"`
+	Minor     int          `json:"minor"`
+	Code      int          `json:"op"`
+	RequestID int          `json:"id"`
+	Groups    []VerifGroup `json:"groups"`
+	Data      []byte       `json:"data"`
+}
+
+func verifItoa(n int32) string {
+	if n == 0 {
+		return "0"
+	}
+	neg := n < 0
+	u := int64(n)
+	if neg {
+		u = -u
+	}
+	var b []byte
+	for u > 0 {
+		b = append([]byte{byte('0' + u%10)}, b...)
+		u /= 10
+	}
+	if neg {
+		b = append([]byte{'-'}, b...)
+	}
+	return string(b)
+}
+
+// VerifDecode runs the service's decoder on raw.
+func VerifDecode(raw []byte) (*VerifMessage, error) {
+	m := &ippMsg{}
+	err := m.decode(raw)
+	out := &VerifMessage{Major: int(m.versionMajor), Minor: int(m.versionMinor), Code: int(m.statusCode), RequestID: int(m.requestID), Data: m.data}
+	for _, g := range m.attributes {
+		vg := VerifGroup{Tag: int(g.tag), Attrs: []VerifValue{}}
+		for _, v := range g.val {
+			vv := VerifValue{Tag: int(v.Tag()), Values: []string{}}
+			switch t := v.(type) {
+			case *valInt:
+				vv.Name = t.name
+				for _, n := range t.val {
+					vv.Values = append(vv.Values, verifItoa(n))
+				}
+			case *valStr:
+				vv.Name = t.name
+				vv.Values = append(vv.Values, t.val...)
+			case *valBool:
+				vv.Name = t.name
+				for _, b := range t.val {
+					if b {
+						vv.Values = append(vv.Values, "true")
+					} else {
+						vv.Values = append(vv.Values, "false")
+					}
+				}
+			case *valRangeInt:
+				vv.Name = t.name
+				vv.Values = append(vv.Values, verifItoa(t.low)+".."+verifItoa(t.high))
+				for _, r := range t.more {
+					vv.Values = append(vv.Values, verifItoa(r[0])+".."+verifItoa(r[1]))
+				}
+			}
+			vg.Attrs = append(vg.Attrs, vv)
+		}
+		out.Groups = append(out.Groups, vg)
+	}
+	return out, err
+}
+
+// VerifReencode decodes raw and encodes the result with the service's encoder.
+func VerifReencode(raw []byte) ([]byte, error) {
+	m := &ippMsg{}
+	if err := m.decode(raw); err != nil {
+		return nil, err
+	}
+	return m.encode().Bytes(), nil
+}
